@@ -213,7 +213,8 @@ SEDOV_FUNC_ALL = SEDOV_FUNC_OUTS + ['efun01', 'efun02']
 
 for _sfx, _sp in SEDOV_SPECIAL.items():
     def _mk(sfx, sp):
-        @target('SedovFuncs' + sfx, ['sedov'], deriv=['l_fun'])
+        # wp sedov2 (additive): certificates in v also for f, g, h (similarity ODEs, Props/C01/SedovODE.lean)
+        @target('SedovFuncs' + sfx, ['sedov'], deriv=['l_fun', 'f_fun', 'g_fun', 'h_fun'])
         def _f():
             def run():
                 # one stub, three real methods: the similarity functions and the two energy
